@@ -1128,6 +1128,18 @@ class Exec:
         res = None
         inner = head.strip()
         inner = re.sub(r'^Pin<&mut (.*)>$', r'\1', inner)
+        msp = re.search(r'@(\S+:\d+:\d+: \d+:\d+)', inner)
+        if msp:
+            # match by source span: `{coroutine@f:l:c: l:c (#0)}` and `{async block@f:l:c: l:c}` name the same body
+            for fs in self.prog.fns.values():
+                for f in fs:
+                    if f.args and re.search(r'\{closure#\d+\}$', f.raw) and ('@' + msp.group(1)) in f.decl.get(f.args[0], ''):
+                        res = f
+                        break
+                if res:
+                    break
+            self._resolve_cache[key] = res
+            return res
         for fs in self.prog.fns.values():
             for f in fs:
                 if not f.args:
